@@ -1,6 +1,6 @@
 use crate::internal::category::Category;
 use crate::internal::codepage::CodePage;
-use crate::internal::column::Column;
+use crate::internal::column::{Column, ColumnType};
 use crate::internal::expr::Expr;
 use crate::internal::query::{Delete, Insert, Select, Update};
 use crate::internal::stream::{StreamReader, StreamWriter, Streams};
@@ -33,6 +33,9 @@ const STRING_DATA_TABLE_NAME: &str = "_StringData";
 const STRING_POOL_TABLE_NAME: &str = "_StringPool";
 
 const MAX_NUM_TABLE_COLUMNS: usize = 32;
+
+// The string length occupies the low byte of a column's type bitfield.
+const MAX_STRING_COLUMN_LEN: usize = 255;
 
 // ========================================================================= //
 
@@ -601,6 +604,30 @@ impl<F: Read + Write + Seek> Package<F> {
                     );
                 }
                 column_names.insert(name);
+                // Refuse column definitions that the catalog tables cannot
+                // represent faithfully.
+                if let ColumnType::Str(max_len) = column.coltype() {
+                    if max_len > MAX_STRING_COLUMN_LEN {
+                        invalid_input!(
+                            "Column {:?} has a maximum string length of {}, \
+                             but the limit is {}",
+                            name,
+                            max_len,
+                            MAX_STRING_COLUMN_LEN
+                        );
+                    }
+                }
+                for value in column.enum_values().unwrap_or(&[]).iter() {
+                    if value.is_empty() || value.contains(';') {
+                        invalid_input!(
+                            "Column {:?} has the enum value {:?}, but enum \
+                             values must be nonempty and cannot contain a \
+                             semicolon",
+                            name,
+                            value
+                        );
+                    }
+                }
             }
         }
         if self.tables.contains_key(&table_name) {
@@ -907,7 +934,7 @@ impl<F: Read + Write + Seek> Finish<F> for FinishImpl {
 mod tests {
     use super::{Package, PackageType};
     use crate::internal::codepage::CodePage;
-    use crate::internal::column::Column;
+    use crate::internal::column::{Column, ColumnType};
     use crate::internal::expr::Expr;
     use crate::internal::query::{Insert, Select, Update};
     use crate::internal::value::Value;
